@@ -30,6 +30,10 @@ type Env struct {
 	qdepth   int                             // inside a quantifier body: no fresh symbols may be introduced
 	lets     map[string]CExpr                // contract-level let definitions, evaluated on first use
 	refOf    func(name string) (TVal, bool)  // address of a captured variable (closures)
+	// witness hints for top-level existentials of a postcondition being proved (never set when
+	// a contract is assumed at a call site)
+	witness      map[string]CExpr
+	witnessLocal func(name string) (TVal, bool)
 }
 
 func (e *Env) errorf(f string, a ...any) {
@@ -233,6 +237,34 @@ func (e *Env) Eval(c CExpr) TVal {
 				return mathBool(And(parts...))
 			}
 			return mathBool(Or(parts...))
+		}
+		if !c.Forall && e.qdepth == 0 && e.witness != nil {
+			if w, ok := e.witness[c.Var]; ok {
+				// proving "exists v :: B(v)" by the proposed witness: B(w) (stronger, hence sound)
+				prevR := e.resolver
+				e.resolver = func(n string) (TVal, bool) {
+					if e.witnessLocal != nil {
+						if v, ok := e.witnessLocal(n); ok {
+							return v, true
+						}
+					}
+					if prevR != nil {
+						return prevR(n)
+					}
+					return TVal{}, false
+				}
+				wv := e.Eval(w)
+				e.resolver = prevR
+				saved, had := e.vars[c.Var]
+				e.vars[c.Var] = wv
+				body := e.EvalBool(c.Body)
+				if had {
+					e.vars[c.Var] = saved
+				} else {
+					delete(e.vars, c.Var)
+				}
+				return mathBool(body)
+			}
 		}
 		name := e.x.ctx.boundVar(c.Var)
 		saved, had := e.vars[c.Var]
